@@ -608,7 +608,11 @@ class QuorumSensing:
         abstain_votes: list[Vote]
     ) -> QuorumResult:
         """Fixed threshold count (e.g., need exactly N permits)."""
-        threshold = int(self.custom_threshold or len(self.colony) // 2 + 1)
+        if self.custom_threshold is not None and 0 < self.custom_threshold < 1:
+            # Fractional threshold (e.g. EmergencyQuorum's 0.3): that share of the colony, at least one vote
+            threshold = max(1, math.ceil(self.custom_threshold * len(self.colony)))
+        else:
+            threshold = int(self.custom_threshold or len(self.colony) // 2 + 1)
 
         reached = len(permit_votes) >= threshold
         decision = VoteType.PERMIT if reached else VoteType.BLOCK
